@@ -21,8 +21,8 @@ def q_uc_atoms(c, A, ctx):
 
 
 def q_slab(c, A, ctx):
-    lo, hi = A["bounds"]
-    return c.slab(bounds=(tuple(lo), tuple(hi)))
+    bounds = _kept(ctx, "bounds", lambda: [list(A["bounds"][0]), list(A["bounds"][1])])
+    return c.slab(bounds=bounds)
 
 
 def q_conn(c, A, ctx):
@@ -51,15 +51,25 @@ def q_mol_dict(c, A, ctx):
 
 
 def q_air(c, A, ctx):
-    return c.atoms_in_radius(A["r"], origin=tuple(A["origin"]))
+    origin = _kept(ctx, "origin", lambda: np.array(A["origin"], dtype=float))
+    return c.atoms_in_radius(A["r"], origin=origin)
 
 
 def q_asur(c, A, ctx):
     return c.atomic_surroundings(A["r"])
 
 
+def _kept(ctx, key, make):
+    """An argument object the caller creates once and passes every time."""
+    box = ctx.setdefault("box", {})
+    if key not in box:
+        box[key] = make()
+    return box[key]
+
+
 def q_agsur(c, A, ctx):
-    return c.atom_group_surroundings(list(A["atoms"]), A["r"])
+    # the same list object on every call (the library must not edit its arguments)
+    return c.atom_group_surroundings(_kept(ctx, "atoms", lambda: list(A["atoms"])), A["r"])
 
 
 def q_menv1(c, A, ctx):
@@ -166,6 +176,8 @@ def _saveload(c, A, ctx, name, with_text=True):
     import os
     from pathlib import Path
 
+    if A.get("path_objects"):
+        name = Path(name)
     if A.get("relative"):
         # the caller works inside the handle's directory and uses relative
         # file names (the working directory is part of the environment)
@@ -178,7 +190,7 @@ def _saveload(c, A, ctx, name, with_text=True):
         finally:
             os.chdir(back)
     else:
-        p = "%s/%s" % (ctx["dir"], name)
+        p = Path(ctx["dir"]) / name if A.get("path_objects") else "%s/%s" % (ctx["dir"], name)
         c.save(p)
         loaded = Crystal.load(p)
         text = Path(p).read_text() if with_text else None
